@@ -82,6 +82,7 @@ for _p in ("C01", "C02", "C03", "C04"):
 PROPS["C02"]["groups"].append(CL_FAIR)
 PROPS["C01"]["groups"].append(CL_FAIR)
 PROPS["C03"]["groups"].append(CL_FAIR)
+PROPS["C04"]["groups"].append(CL_FAIR)
 PROPS["C01"]["groups"].append(CL_FREE)
 PROPS["C02"]["groups"].append(CL_FREE)
 PROPS["C03"]["groups"].append(CL_FREE)
